@@ -232,19 +232,29 @@ def closure_cmp(facts, g):
     return None, False
 
 
+def norm_term(x):
+    return x.replace('*', '').replace('&', '').strip()
+
+
 def event_time_release(ctx):
     facts = ctx.facts
     pr = facts.method(ET, 'process', trait='renoir::operator::window::WindowManager')
     pps = bool_closures(facts, pr, '::partition_point')
     if not pps:
         raise AnchorMissing('EventTimeWindowManager::process has no partition_point closure')
+    released_terms = []
     for bi, t, g in pps:
         d, neg = closure_cmp(facts, g)
         if d is None:
             raise Inconclusive('partition_point closure of EventTimeWindowManager is not a single comparison')
-        rel, a, b = cmp_rel_of(d, lambda x: x.endswith('.end'))
+        # the slot-side operand is the one that mentions the closure's slot parameter
+        rel, a, b = cmp_rel_of(d, lambda x: 'arg' not in x.split('.')[0] and ('w.' in x or 'w)' in x or x.startswith('*w') or x.startswith('w')))
+        if rel is None:
+            rel, a, b = cmp_rel_of(d, lambda x: x.endswith('.end'))
         if rel is not None and neg:
             rel = frozenset(ALL - set(rel))
+        if rel is not None:
+            released_terms.append(norm_term(a))
         ctx.inst('EventTime::process|release', {'at': t['at'], 'released iff end %s watermark' % ('{%s}' % ''.join(sorted(rel)) if rel else '?'): True,
                                                 'operands': [a, b]})
         if rel is None:
@@ -264,10 +274,11 @@ def event_time_release(ctx):
         for bi, s in q.aggregates(g, 'renoir::operator::window::WindowResult', 'Timestamped'):
             stamp = render(strip(s2.operand(s['rv']['o'][1])))
             ctx.inst('EventTime::process|stamp|%s' % s['at'], {'stamp': stamp})
-            if not stamp.endswith('.end'):
+            if released_terms and norm_term(stamp) not in released_terms:
                 ctx.viol('%s|stamp' % ET, s['at'],
-                         'event-time window results are stamped with `%s` instead of the window end: a stamp below an already '
-                         'forwarded watermark becomes possible' % stamp, None)
+                         'event-time window results are stamped with `%s` but a window is kept open until a watermark reaches `%s`: a '
+                         'watermark between the two is forwarded while the window is open, and the result later carries a timestamp at or '
+                         'below it' % (stamp, released_terms[0]), None)
 
 
 @rule('C13', 'R1', 'event-time assignment interval is half-open [start, end): skip while end <= ts, take while start <= ts')
